@@ -59,7 +59,8 @@ def gen(rng, i):
     jobs = []
     for _ in range(n):
         jobs.append({"S": rng.choice([0, 0, 0, 100, 350]), "D": rng.choice([200, 300, 300, 700]),
-                     "K": rng.choice([None, None, None, 50, 320, 400]), "C": rng.random() < 0.4})
+                     "K": rng.choice([None, None, None, 50, 320, 400]), "C": rng.random() < 0.4,
+                     "cbd": rng.choice([0, 0, 0, 500])})
     if rng.random() < 0.2:
         # the count callable answers a, later b, and only then starts to raise: "the last value stays in force" must
         # mean b; submissions arrive while it is raising
@@ -69,6 +70,13 @@ def gen(rng, i):
         block = False
         jobs = [{"S": rng.choice([t1 + 20, t2 + 10, t2 + 10, t2 + 50]), "D": rng.choice([300, 700]), "K": None,
                  "C": False} for _ in range(rng.choice([3, 4, 5]))]
+    if i % 9 == 0:
+        # a saturated throttle with several queued submissions, one from the middle of the queue cancelled: the others keep
+        # their order
+        count, block = 1, False
+        m = rng.choice([4, 5, 6])
+        jobs = [{"S": 10 * j, "D": 300, "K": None, "C": False} for j in range(m)]
+        jobs[rng.randrange(2, m - 1)]["K"] = rng.choice([100, 150])
     fl = "manual" if i % 2 == 0 else "pool"
     return {"flavour": fl, "count": count, "block": block, "jobs": jobs,
             "horizon": 36000 if isinstance(count, dict) else 2500, "workers": rng.choice([1, 2, 4])}
